@@ -75,6 +75,11 @@ func main() {
 	only := fs.String("only", "", "replay: JSON file with {seed, program, op}")
 	fs.Parse(os.Args[2:])
 	switch os.Args[1] {
+	case "extract":
+		if err := extract(*repo); err != nil {
+			fmt.Fprintln(os.Stderr, "c08 extract:", err)
+			os.Exit(3)
+		}
 	case "idl":
 		r := vl.NewRng(*seed)
 		p := genProgram(r, *stress, func(string) {})
@@ -897,6 +902,106 @@ func verdict(oc *opCase, ans string) string {
 	return ""
 }
 
+// ---------------------------------------------------------------- shrinking
+
+// shrink minimises a failing CALL case: the failing call alone on a fresh connection, then smaller argument
+// and exception values (valgen.Shrink), each candidate re-run through the driver and re-judged by the oracle.
+func shrink(b *batch.Built, r *vl.Rng, oc *opCase, ans, msg string) (*opCase, string, string) {
+	if oc.kind != "CALL" {
+		return oc, ans, msg
+	}
+	g := &caseGen{r: r, u: oc.unit, out: &vl.Out{Stats: map[string]int{}}}
+	try := func(calls []*callSpec, seq0 int32) (*opCase, string, string) {
+		c := &opCase{unit: oc.unit, svc: oc.svc, kind: "CALL", calls: calls, seq0: seq0}
+		var sb strings.Builder
+		fmt.Fprintf(&sb, "CALL %s:%d c %d %d", oc.unit.Key, oc.svc.Idx, seq0, len(calls))
+		for _, x := range calls {
+			sb.WriteString(" " + x.text())
+		}
+		c.line = sb.String()
+		a, err := b.RunLines([]string{c.line})
+		if err != nil || len(a) != 1 {
+			return c, "", ""
+		}
+		return c, a[0], verdict(c, a[0])
+	}
+	_ = g
+	best, bestAns, bestMsg := oc, ans, msg
+	// (1) a single call
+	if len(oc.calls) > 1 {
+		for i := range oc.calls {
+			if c, a, m := try([]*callSpec{oc.calls[i]}, 0); m != "" {
+				best, bestAns, bestMsg = c, a, m
+				break
+			}
+		}
+	}
+	if len(best.calls) != 1 {
+		return best, bestAns, bestMsg
+	}
+	s := oc.unit.Schema
+	renorm := func(c *callSpec) *callSpec {
+		d := *c
+		d.argsN, d.resN = nil, nil
+		if n, err := refcodec.Normal(s, d.m.ArgsSidx, d.args); err == nil {
+			d.argsN = n
+		}
+		if !d.m.Oneway && d.kind != "err" {
+			rs := s.Structs[d.m.ResSidx]
+			e := &values.Value{K: values.KRecord, E: make([]*values.Value, len(rs.Fields))}
+			for i := range e.E {
+				e.E[i] = values.Nil()
+			}
+			k := 0
+			if d.kind == "exc" {
+				k = d.exc
+				if !d.m.Void {
+					k++
+				}
+			}
+			if len(e.E) > k && !(d.kind == "ok" && d.m.Void) {
+				e.E[k] = d.val
+			}
+			if n, err := refcodec.Normal(s, d.m.ResSidx, e); err == nil {
+				d.resN = n
+			}
+		}
+		return &d
+	}
+	cur := best.calls[0]
+	// (2) smaller arguments
+	args := valgen.Shrink(s, cur.m.ArgsSidx, cur.args, func(v *values.Value) bool {
+		d := *cur
+		d.args = v
+		_, _, m := try([]*callSpec{renorm(&d)}, 0)
+		return m != ""
+	}, 120)
+	d := *cur
+	d.args = args
+	cur = renorm(&d)
+	// (3) smaller exception value
+	if cur.kind == "exc" && !cur.val.IsNil() {
+		rs := s.Structs[cur.m.ResSidx]
+		k := cur.exc
+		if !cur.m.Void {
+			k++
+		}
+		val := valgen.Shrink(s, rs.Fields[k].Type.Sidx, cur.val, func(v *values.Value) bool {
+			d := *cur
+			d.val = v
+			_, _, m := try([]*callSpec{renorm(&d)}, 0)
+			return m != ""
+		}, 80)
+		d := *cur
+		d.val = val
+		cur = renorm(&d)
+	}
+	if c, a, m := try([]*callSpec{cur}, 0); m != "" {
+		return c, a, m
+	}
+	return best, bestAns, bestMsg
+}
+
 // ---------------------------------------------------------------- run
 
 func reportUnits(b *batch.Built) int {
@@ -1118,14 +1223,14 @@ func run(repo, dir string, seed uint64, nprog int, tier string, keep bool, only 
 	}
 	if only != "" {
 		// replay: keep schema/service lines and the one op
-		var doc struct{ Op string }
+		var doc struct{ Key string }
 		if data, err := os.ReadFile(only); err == nil {
 			json.Unmarshal(data, &doc)
 		}
 		var l2 []string
 		var c2 []*opCase
 		for i, l := range lines {
-			if cases[i] == nil || l == doc.Op {
+			if cases[i] == nil || l == doc.Key || strings.HasPrefix(doc.Key, "broken:") || doc.Key == "" {
 				l2, c2 = append(l2, l), append(c2, cases[i])
 			}
 		}
@@ -1153,11 +1258,16 @@ func run(repo, dir string, seed uint64, nprog int, tier string, keep bool, only 
 		}
 		if msg := verdict(c, ans); msg != "" {
 			fails++
+			if fails <= 6 && only == "" {
+				c, ans, msg = shrink(b, r, c, ans, msg)
+				line = c.line
+			}
 			if fails <= 10 {
 				fmt.Printf("ORACLE FAIL [%s %s] %s\n  op: %.400s\n  got: %.400s\n", c.unit.Key, strings.Join(c.unit.Options, ","), msg, line, ans)
 			}
 			out.Fail(vl.OracleFail{Key: line, What: c.kind + ": " + msg,
-				Input:    map[string]interface{}{"unit": c.unit.Key, "tag": c.unit.Tag, "options": c.unit.Options, "service": c.svc.Name, "op": line, "idl_dir": c.unit.IDLDir, "seed": seed},
+				Input: map[string]interface{}{"unit": c.unit.Key, "tag": c.unit.Tag, "options": c.unit.Options, "service": c.svc.Name, "op": line, "seed": seed,
+					"idl": units[c.unit.Index].Prog.Render(), "cmd": strings.Join(c.unit.Cmd, " ")},
 				Expected: "see what", Observed: ans})
 			out.Sample(map[string]string{"op": line, "got": ans, "why": msg})
 		} else {
@@ -1173,4 +1283,97 @@ func run(repo, dir string, seed uint64, nprog int, tier string, keep bool, only 
 		return 1
 	}
 	return 0
+}
+
+// ---------------------------------------------------------------- translator
+
+// extract prints Generated/C08.lean: the constants the service templates emit (application exception kinds with
+// their message expressions, reply message types, the client's Call shapes) and what buildSynthesized makes.
+func extract(repo string) error {
+	read := func(rel string) (string, error) {
+		b, err := os.ReadFile(filepath.Join(repo, rel))
+		return string(b), err
+	}
+	proc, err := read("generator/golang/templates/processor.go")
+	if err != nil {
+		return err
+	}
+	client, err := read("generator/golang/templates/client.go")
+	if err != nil {
+		return err
+	}
+	scope, err := read("generator/golang/scope.go")
+	if err != nil {
+		return err
+	}
+	uniq := func(re *regexp.Regexp, text string, n int) [][]string {
+		seen := map[string]bool{}
+		var out [][]string
+		for _, m := range re.FindAllStringSubmatch(text, -1) {
+			k := strings.Join(m[1:], "\x00")
+			if !seen[k] {
+				seen[k] = true
+				out = append(out, m[1:1+n])
+			}
+		}
+		sort.Slice(out, func(i, j int) bool { return strings.Join(out[i], "\x00") < strings.Join(out[j], "\x00") })
+		return out
+	}
+	app := uniq(regexp.MustCompile(`NewTApplicationException\(thrift\.(\w+), ([^\n]*)\)\n`), proc, 2)
+	mb := uniq(regexp.MustCompile(`oprot\.WriteMessageBegin\(([^,]+), thrift\.(\w+), seqId\)`), proc, 2)
+	calls := uniq(regexp.MustCompile(`Client_\(\)\.Call\(ctx, ([^,]+), ([^,]+), ([^)]+)\)`), client, 3)
+	i := strings.Index(scope, "func buildSynthesized(")
+	if i < 0 {
+		return fmt.Errorf("buildSynthesized not found in scope.go")
+	}
+	body := scope[i:]
+	if j := strings.Index(body, "\n}\n"); j > 0 {
+		body = body[:j]
+	}
+	var syn [][]string
+	names := regexp.MustCompile(`Name:\s+(v\.Name \+ "_(args|result)")`).FindAllStringSubmatch(body, -1)
+	for _, m := range names {
+		syn = append(syn, []string{m[2], m[1]})
+	}
+	k := strings.Index(body, "&parser.Field{")
+	if k < 0 {
+		return fmt.Errorf("success field literal not found in buildSynthesized")
+	}
+	lit := body[k:]
+	if j := strings.Index(lit, "})"); j > 0 {
+		lit = lit[:j]
+	}
+	for _, kv := range [][2]string{{"success.id", `ID:\s+(\S+),`}, {"success.name", `Name:\s+(\S+),`}, {"success.req", `Requiredness:\s+(\S+),`}} {
+		m := regexp.MustCompile(kv[1]).FindStringSubmatch(lit)
+		if m == nil {
+			return fmt.Errorf("%s not found in the success field literal", kv[0])
+		}
+		syn = append(syn, []string{kv[0], m[1]})
+	}
+	var sb strings.Builder
+	sb.WriteString("/- GENERATED by harness/cmd/c08 extract from templates/processor.go, templates/client.go, scope.go. Do not edit. -/\nnamespace Generated.C08\n\n")
+	tuple := func(xs []string) string {
+		var qs []string
+		for _, x := range xs {
+			qs = append(qs, strconv.Quote(x))
+		}
+		return "(" + strings.Join(qs, ", ") + ")"
+	}
+	list := func(name, typ string, rows [][]string) {
+		fmt.Fprintf(&sb, "def %s : List (%s) := [", name, typ)
+		for i, r := range rows {
+			if i > 0 {
+				sb.WriteString(",")
+			}
+			sb.WriteString("\n  " + tuple(r))
+		}
+		sb.WriteString("]\n\n")
+	}
+	list("appExceptions", "String × String", app)
+	list("messageBegins", "String × String", mb)
+	list("clientCalls", "String × String × String", calls)
+	list("synthesized", "String × String", syn)
+	sb.WriteString("end Generated.C08\n")
+	fmt.Print(sb.String())
+	return nil
 }
